@@ -164,6 +164,40 @@ def drive(run, driver, cases_path, out_prefix, args, nshards=NPROC, timeout=3600
     return [o for o in outs if os.path.exists(o) and os.path.getsize(o) > 0]
 
 
+def observe_tests(run, test_files, kexpr=None, nshards=8, timeout=3000):
+    """Binding B on the repository's own tests: run them under harness/observe_plugin.py (installed from
+    outside, guard ASN1TOOLS_VERIF=1) and return the recorded encode calls as trace shards."""
+    out = run.path('fixtures.ndjson')
+    env = dict(os.environ)
+    env.update({'ASN1TOOLS_VERIF': '1', 'VERIF_OBSERVE_OUT': out, 'PYTHONPATH': HERE, 'PYTHONHASHSEED': '0'})
+    cmd = [PY, '-m', 'pytest', '-q', '-p', 'no:cacheprovider', '-p', 'observe_plugin', '--timeout=900'] + list(test_files)
+    if kexpr:
+        cmd += ['-k', kexpr]
+    try:
+        p = subprocess.run(cmd, cwd=REPO, env=env, stdout=subprocess.PIPE, stderr=subprocess.STDOUT, text=True, timeout=timeout)
+    except subprocess.TimeoutExpired:
+        raise Machinery('observed test run timed out')
+    if not os.path.exists(out):
+        raise Machinery('observed test run produced no trace:\n' + p.stdout[-2000:])
+    run.notes['fixture_tests'] = p.stdout.strip().splitlines()[-1][:200] if p.stdout.strip() else ''
+    try:
+        run.notes['fixture_skipped'] = json.load(open(out + '.skipped'))
+    except Exception:
+        pass
+    lines = [l for l in open(out) if l.strip()]
+    lines.sort(key=len, reverse=True)
+    shards = []
+    for k in range(nshards):
+        part = lines[k::nshards]
+        if part:
+            sp = run.path('fixtures.%d.ndjson' % k)
+            with open(sp, 'w') as f:
+                f.writelines(part)
+            shards.append(sp)
+    run.notes['fixture_lines'] = len(lines)
+    return shards
+
+
 # ----------------------------------------------------------------------------------------
 # trace validation (binding B)
 
